@@ -516,7 +516,11 @@ func RulePanicIn(r *Report, p *Program, tier string, rel string, mins map[string
 		}
 	}
 	for _, o := range tmp.Obs {
-		if _, ok := mins[o.Rule]; ok && strings.HasPrefix(o.Pos, rel+"/") {
+		inPkg := strings.HasPrefix(o.Pos, rel+"/")
+		if rel == codecRel && strings.HasPrefix(o.Construct, "codec.") {
+			inPkg = true // sites without a source position (compiler-introduced conversions) are named by construct
+		}
+		if _, ok := mins[o.Rule]; ok && inPkg {
 			r.add(o)
 		}
 	}
